@@ -331,26 +331,77 @@ def _r4(ctx):
                 rp = resolve_path(P, b, d[1])
                 if rp is not None and param_ty(rp[0], rp[1]).endswith("acl::PermissionType"):
                     psw.append(bb)
-    n = 0
+    # every read of a permission flag in the function, with the arm of the permission switch it stands under
+    def rv_ops(rv):
+        k = rv["k"]
+        if k in ("use", "repeat", "cast"):
+            return [rv["op"]]
+        if k == "bin":
+            return [rv["a"], rv["b"]]
+        if k == "un":
+            return [rv["a"]]
+        if k == "agg":
+            return list(rv["ops"])
+        return []
+    reads = []
+    for bb, idx, st in b.stmts():
+        for o in (rv_ops(st["rv"]) if "rv" in st else []):
+            pl = op_place(o)
+            if pl and any(isinstance(x, str) and x.startswith(".allow_") for x in pl):
+                reads.append((bb, [x for x in pl if isinstance(x, str) and x.startswith(".allow_")][0][1:], st["sp"], T.place(pl, bb, idx)))
     for bb, tm in b.calls():
-        a = [norm(x) for x in T.call_args(bb)]
-        if len(a) >= 1 and a[0][0] == "field" and a[0][2].startswith("allow_") and "bool" in b.local_ty(tm["dest"][0]) or (
-                len(a) >= 1 and a[0][0] == "field" and a[0][2].startswith("allow_")):
-            n += 1
-            fld = a[0][2]
-            var = None
-            for sbb in psw:
-                for i, v in enumerate(variants):
-                    if edge_dominated(cfg, discr_edges(cfg, sbb, i), bb) and len(discr_edges(cfg, sbb, i)) == 1 and \
-                            sum(1 for j in range(len(variants)) if discr_edges(cfg, sbb, j) == discr_edges(cfg, sbb, i)) == 1:
-                        var = v
-            want = tables.PERMISSION_FIELD.get(var)
-            ctx.check(want == fld, "R4", "permission-table:%s->%s" % (var, fld), ctx.where(b, tm["sp"]),
-                      "permission %s must be decided by field %s (uses %s)" % (var, want, fld))
-            # and comes from the first matching rule
-            src = a[0][1]
-            ctx.check(any(s[0] == "call" and str(s[1]).endswith("check_authenticated") for s in subterms(src)), "R4",
-                      "permission-read-from-first-match:%s" % var, ctx.where(b, tm["sp"]), "")
+        for o in tm["args"]:
+            pl = op_place(o)
+            if pl and any(isinstance(x, str) and x.startswith(".allow_") for x in pl):
+                reads.append((bb, [x for x in pl if isinstance(x, str) and x.startswith(".allow_")][0][1:], tm["sp"],
+                              T.place(pl, bb, len(b.blocks[bb]["stmts"]))))
+    n = 0
+    seen_vars = set()
+    for bb, fld, sp, term in reads:
+        n += 1
+        var = None
+        for sbb in psw:
+            for i, v in enumerate(variants):
+                if edge_dominated(cfg, discr_edges(cfg, sbb, i), bb) and len(discr_edges(cfg, sbb, i)) == 1 and \
+                        sum(1 for j in range(len(variants)) if discr_edges(cfg, sbb, j) == discr_edges(cfg, sbb, i)) == 1:
+                    var = v
+        seen_vars.add(var)
+        want = tables.PERMISSION_FIELD.get(var)
+        ctx.check(want == fld, "R4", "permission-table:%s->%s" % (var, fld), ctx.where(b, sp),
+                  "permission %s must be decided by field %s (uses %s)" % (var, want, fld))
+        # and comes from the first matching rule
+        ctx.check(any(s_[0] == "call" and str(s_[1]).endswith("check_authenticated") for s_ in subterms(norm(term))), "R4",
+                  "permission-read-from-first-match:%s" % var, ctx.where(b, sp), "")
+    for v in variants:
+        ctx.check(v in seen_vars, "R4", "permission-arm-reads-its-flag:%s" % v, ctx.where(b), "no read of a permission flag under the %s arm" % v)
+    # polarity: access is granted (Ok) only where the flag is true
+    def flagish(d):
+        return any((x[0] == "field" and str(x[2]).startswith("allow_")) for x in subterms(d))
+    granted = 0
+    oks = [(bb, st) for bb, idx, st in b.stmts() if st["p"] == (0,) and "rv" in st and st["rv"]["k"] == "agg" and st["rv"].get("variant") == "Ok"]
+    if oks:
+        te_all = []
+        for sbb, d, te, fe in bool_switches(P, b, flagish):
+            te_all.extend(te)
+        for bb, st in oks:
+            granted += 1
+            ctx.check(edge_dominated(cfg, te_all, bb), "R4", "granted-only-when-the-flag-is-set", ctx.where(b, st["sp"]),
+                      "Ok(()) must lie on the true edge of the test of the permission flag")
+    for bb, tm in b.calls():
+        cn = callee_name(tm)
+        pos = [i for i, a_ in enumerate(T.call_args(bb)) if norm(a_)[0] == "field" and str(norm(a_)[2]).startswith("allow_")]
+        if cn in P.bodies and pos:
+            cb = P.bodies[cn]
+            ccfg = cfg_of(cb)
+            te_all = []
+            for sbb, d, te, fe in bool_switches(P, cb, lambda d: norm(d) in [("param", i + 1) for i in pos]):
+                te_all.extend(te)
+            for bb2, idx2, st2 in cb.stmts():
+                if st2["p"] == (0,) and "rv" in st2 and st2["rv"]["k"] == "agg" and st2["rv"].get("variant") == "Ok":
+                    granted += 1
+                    ctx.check(edge_dominated(ccfg, te_all, bb2), "R4", "granted-only-when-the-flag-is-set:%s" % cn.rsplit("::", 1)[-1], ctx.where(cb, st2["sp"]),
+                              "Ok(()) must lie on the true edge of the test of the flag handed in")
+    ctx.floor("R4", "grant sites", granted, 1)
     ctx.floor("R4", "permission table arms", n, 4)
 
 
